@@ -1,0 +1,94 @@
+//go:build verif
+// +build verif
+
+package rfmt
+
+import (
+	"sync/atomic"
+
+	ib "github.com/cockroachdb/redact/internal/buffer"
+)
+
+// This file exists only in builds with the "verif" tag. It gives the
+// runtime monitors under /verif access to process-wide state that is
+// not reachable through the public API. Nothing here is called by the
+// library itself.
+
+var verifPoolNews int64
+
+func init() {
+	ppFree.New = func() interface{} {
+		atomic.AddInt64(&verifPoolNews, 1)
+		return new(pp)
+	}
+}
+
+// VerifPoolNews returns how many printers the pool had to allocate so far.
+func VerifPoolNews() int64 { return atomic.LoadInt64(&verifPoolNews) }
+
+// VerifResetSafeTypes empties the registry of safe types.
+func VerifResetSafeTypes() {
+	for k := range safeTypeRegistry {
+		delete(safeTypeRegistry, k)
+	}
+}
+
+// VerifSafeTypeCount returns the number of registered safe types.
+func VerifSafeTypeCount() int { return len(safeTypeRegistry) }
+
+// VerifHasErrorFn tells whether an error hook is installed.
+func VerifHasErrorFn() bool { return redactErrorFn != nil }
+
+// VerifPrinterState is the part of a pooled printer's state that a
+// freshly allocated printer has zeroed.
+type VerifPrinterState struct {
+	BufLen, BufCap, ValidUntil int
+	Mode                       int
+	MarkerOpen                 bool
+	Override                   int
+	ArgNil, ValueInvalid       bool
+	WrappedErrNil              bool
+	Wid, Prec                  int
+	FlagsZero                  bool
+	Reordered, GoodArgNum      bool
+	Panicking, Erroring        bool
+	WrapErrs                   bool
+}
+
+// VerifDrainPool takes up to n printers out of the pool, records their
+// state and puts them back. Printers allocated by the pool's New
+// function during the drain are recorded as well (they are pristine
+// by construction); news reports how many of those there were.
+func VerifDrainPool(n int) (states []VerifPrinterState, news int) {
+	before := VerifPoolNews()
+	var taken []*pp
+	for j := 0; j < n; j++ {
+		p := ppFree.Get().(*pp)
+		taken = append(taken, p)
+		mode, open, valid, l, c := p.buf.VerifState()
+		states = append(states, VerifPrinterState{
+			BufLen: l, BufCap: c, ValidUntil: valid,
+			Mode: int(mode), MarkerOpen: open,
+			Override:      int(p.override),
+			ArgNil:        p.arg == nil,
+			ValueInvalid:  !p.value.IsValid(),
+			WrappedErrNil: p.wrappedErr == nil,
+			Wid:           p.fmt.wid, Prec: p.fmt.prec,
+			FlagsZero: p.fmt.fmtFlags == (fmtFlags{}),
+			Reordered: p.reordered, GoodArgNum: p.goodArgNum,
+			Panicking: p.panicking, Erroring: p.erroring,
+			WrapErrs: p.wrapErrs,
+		})
+	}
+	for _, p := range taken {
+		ppFree.Put(p)
+	}
+	return states, int(VerifPoolNews() - before)
+}
+
+// VerifMode* re-export the buffer mode constants as ints.
+const (
+	VerifModeUnsafeEscaped = int(ib.UnsafeEscaped)
+	VerifModeSafeEscaped   = int(ib.SafeEscaped)
+	VerifModeSafeRaw       = int(ib.SafeRaw)
+)
